@@ -65,6 +65,7 @@ pub fn blocks(thorough: bool) -> Vec<Block> {
         b.push(Block::new(Universe::new("U_ab3{a,b}", &["a", "b"], 3, 0, true), anch(&bases7), "{na,ne,na+ne} x 7 bases"));
         b.push(Block::new(Universe::new("U_abc2{a,b,c}", &["a", "b", "c"], 2, 0, true), anch(&b2), "{na,ne,na+ne} x Lambda<=2 bases"));
         b.push(Block::new(Universe::new("U_ab4{a,b}", &["a", "b"], 4, 4, true), anch(&[0, R]), "{na,ne,na+ne} x {{}, r}"));
+        b.push(Block::new(Universe::new("U_ab4{a,b}", &["a", "b"], 4, 5, false), anch(&[0]), "{na,ne,na+ne}"));
         b.push(Block::new(Universe::new("U_adv(units)", &units, 2, 3, false), anch(&[0, R, X]), "{na,ne,na+ne} x {{}, r, x}"));
         b.push(Block::new(Universe::new("U_adv(units)", &units, 3, 2, false), anch(&[0, R]), "{na,ne,na+ne} x {{}, r}"));
         b.push(Block::new(Universe::new("U_a1A{a,1,A}", &["a", "1", "A"], 3, 3, true), anch(&[D, W, I, D | I | R]), "{na,ne,na+ne} x {d,w,i,d+i+r}"));
